@@ -88,6 +88,30 @@ def cases(tier, rng):
         m = '(m_accumulate %d)' % ref
         yield (case(m, steps, refaid=ref if present else -1), 'accumulate')
 
+def app_cases(tier, rng):
+    from scen import Ids, action, bind, spec, sop, spawn, frame, raw, scenario, key, mbutton, paxis, motion, pad, REBUILD, c_script
+    MODS = (['(m_negate %s %s %s)' % (b(x), b(y), b(z)) for x in (0, 1) for y in (0, 1) for z in (0, 1)] +
+            ['(m_scale 1/2 3/1 -2/1)', '(m_scale 0/1 1/1 1/2)'] + ['(m_swizzle %s)' % k for k in ['YXZ', 'ZYX', 'XZY', 'YZX', 'ZXY']] +
+            ['(m_deadzone Axial 1/4 3/4)', '(m_deadzone Axial 0/1 1/1)', '(m_exp 2 2 2)', '(m_exp 1 3 1)', 'm_delta_scale', '(m_delta_lerp 4/1)', '(m_delta_lerp 8/1)'])   # with deltas 1/8, 1/4: alpha in {1/2, 1, clamped}, exact in f32 over the run
+    for _ in range(1200 if tier == 'thorough' else 100):
+        ids = Ids()
+        L = rng.randint(6, 16)
+        acts = []
+        allaids = [aid(j % 4, j, False, False) for j in range(3)]
+        for j in range(3):
+            inp = rng.choice([key(j), mbutton(j % 2), paxis(j % 2), motion()])
+            ms = [rng.choice(MODS + ['(m_accumulate %d)' % rng.choice(allaids + [aid(0, 3)])]) for _ in range(rng.randint(1, 2))]
+            am = [rng.choice(MODS) for _ in range(rng.randint(0, 1))]
+            acts.append(action(ids, allaids[j], [bind(ids, inp, ms, [])], am, [c_script('KExplicit', [rng.choice(['SFired', 'SFired', 'SOngoing', 'SNone']) for _ in range(L + 1)])] if rng.random() < .5 else []))
+        cfg = {(0, 0): spec(acts)}
+        steps = [sop(spawn(0, [0])), frame(raw(pads=[pad(0)]))]
+        for i in range(L):
+            steps.append(frame(raw(keys=[k for k in range(3) if rng.random() < .6], mbuttons=[k for k in range(2) if rng.random() < .5],
+                                   motion=(rng.choice([F(0), F(1), F(-1, 2)]), rng.choice([F(0), F(1, 4)])),
+                                   pads=[pad(0, [], [(a, rng.choice([F(0), F(1, 4), F(3, 4), F(-1)])) for a in range(2)])]), rng.choice([F(1, 8), F(1, 4)])))
+            if i == L // 2 and rng.random() < .2: steps.append(sop(REBUILD))
+        yield (scenario([0], [0], cfg, steps), 'bound-in-context')
+
 def nontrivial(case, out):
     return any(t not in ('0/1', '1/1') for t in out.replace('(', ' ').replace(')', ' ').split() if '/' in t)
 
@@ -98,6 +122,10 @@ STAGES = [dict(name='mod', mode='unit', coq='Check.C18c', cases=cases, nontrivia
                     'radial dead zone on scaled Pythagorean vectors (tolerance 2^-16); random DeltaLerp sequences of length <= 8 (speeds 0,1,2,4,8; tolerance 2^-18); '
                     'random AccumulateBy sequences with the referenced action present/absent. non-trivial = some output component other than 0 or 1; distinct = distinct case text')]
 
+STAGES.append(dict(name='context', mode='app', coq='Check.C18w', cases=app_cases, nontrivial=nontrivial, shard=25,
+                   exhaustive={'thorough': False, 'quick': False},
+                   rule='the same modifiers bound in a real context at input and action level on keys, mouse buttons, mouse motion and gamepad axes over 6-16 frames with rebuilds; '
+                        'every application recorded by the wrapper (value in, value out, action states shown) is judged by the laws'))
 CLAUSES = {1: 'Negate does not flip exactly the selected axes', 2: 'Scale is not the per-axis product', 3: 'SwizzleAxis is not the stated permutation of the zero-padded input truncated to the documented dimension',
            4: 'axial DeadZone: non-zero inside the lower threshold, magnitude above one, or sign lost', 5: 'radial DeadZone: non-zero inside the lower threshold, magnitude above one, or direction lost',
            6: 'ExponentialCurve: sign lost or 0/+-1 not fixed', 7: 'DeltaScale is not value * delta', 8: 'axial DeadZone is not monotone in the magnitude',
